@@ -230,12 +230,15 @@ pub fn minimise(profile: &str, case: &Value, prop: &str, check: &str, cpu_budget
     let mut pool = Pool::new(worker_bin(profile), 1);
     let mut best = case.clone();
     let mut execs = 0usize;
+    let t0 = std::time::Instant::now();
+    // hangs make every candidate cost the whole CPU budget: bound the wall time as well
+    let wall_cap = std::time::Duration::from_secs(if max_exec > 200 { 420 } else { 90 });
     let budget = if check == "C06.timeout" { cpu_budget_s } else { cpu_budget_s.min(10.0) };
     'outer: loop {
         let cands = case_candidates(&best);
         let mut progressed = false;
         for c in cands {
-            if execs >= max_exec {
+            if execs >= max_exec || t0.elapsed() > wall_cap {
                 break 'outer;
             }
             execs += 1;
